@@ -10,7 +10,7 @@ import json, os, re, shutil, subprocess, sys, time, random, hashlib
 
 VERIF = os.path.dirname(os.path.dirname(os.path.abspath(__file__)))
 REPO = os.environ.get("VERIF_REPO", "/repo")
-WORK = os.path.join(VERIF, ".work")
+WORK = os.environ.get("VERIF_WORK") or os.path.join(VERIF, ".work")
 SPECS = os.path.join(VERIF, "specs")
 HARNESS = os.path.join(VERIF, "harness")
 TLA_JAR = "/opt/veriftools/tla/tla2tools.jar:/opt/veriftools/tla/CommunityModules-deps.jar"
@@ -412,10 +412,11 @@ def load_known_findings(pid):
 
 
 def write_evidence(pid, tier, seed, level, coverage, wall, violations=0, assumptions=None):
-    os.makedirs(os.path.join(VERIF, "evidence"), exist_ok=True)
+    edir = os.path.join(WORK, "evidence") if os.environ.get("VERIF_WORK") else os.path.join(VERIF, "evidence")
+    os.makedirs(edir, exist_ok=True)
     ev = {"property_id": pid, "tier": tier, "seed": int(seed), "level": level, "coverage": coverage,
           "assumptions": assumptions or [], "wall_s": round(wall, 2), "violations": int(violations)}
-    with open(os.path.join(VERIF, "evidence", pid + ".json"), "w") as f:
+    with open(os.path.join(edir, pid + ".json"), "w") as f:
         json.dump(ev, f, indent=1, sort_keys=True)
     return ev
 
